@@ -327,6 +327,7 @@ type faultyReflection struct {
 	mu        sync.Mutex
 	failAfter int // <0: never
 	clean     bool // ... and then end the stream with status OK instead of an error (the client sees io.EOF)
+	errReply  bool // ... or answer that one request with an ErrorResponse (NOT_FOUND) and carry on
 	active    int // reflection streams whose server handler has not returned yet
 }
 
@@ -352,8 +353,16 @@ func (s *countingStream) Send(m *rpb.ServerReflectionResponse) error {
 	s.f.mu.Unlock()
 	if limit >= 0 && s.n >= limit {
 		s.f.mu.Lock()
-		clean := s.f.clean
+		clean, errReply := s.f.clean, s.f.errReply
 		s.f.mu.Unlock()
+		if errReply {
+			if s.n == limit {
+				m = &rpb.ServerReflectionResponse{ValidHost: m.ValidHost, OriginalRequest: m.OriginalRequest,
+					MessageResponse: &rpb.ServerReflectionResponse_ErrorResponse{ErrorResponse: &rpb.ErrorResponse{ErrorCode: 5, ErrorMessage: "sim: not found on purpose"}}}
+			}
+			s.n++
+			return s.ServerReflection_ServerReflectionInfoServer.Send(m)
+		}
 		if clean {
 			return errReflectionCleanEnd
 		}
@@ -383,12 +392,20 @@ func (f *faultyReflection) setFailAfter(n int) { f.setFail(n, false) }
 
 func (f *faultyReflection) setFail(n int, clean bool) {
 	f.mu.Lock()
-	f.failAfter, f.clean = n, clean
+	f.failAfter, f.clean, f.errReply = n, clean, false
+	f.mu.Unlock()
+}
+
+func (f *faultyReflection) setErrReply(n int) {
+	f.mu.Lock()
+	f.failAfter, f.clean, f.errReply = n, false, true
 	f.mu.Unlock()
 }
 
 // reflJ: the number in a "refl:<j>" / "refl:<j>c" fault.
-func reflJ(fail string) string { return strings.TrimSuffix(strings.TrimPrefix(fail, "refl:"), "c") }
+func reflJ(fail string) string {
+	return strings.TrimSuffix(strings.TrimSuffix(strings.TrimPrefix(fail, "refl:"), "c"), "e")
+}
 
 // verboseReflection is a second, independent implementation of the reflection
 // service: it answers every file request with the file and ALL of its
